@@ -277,7 +277,13 @@ def run(ctx):
     xmarks = sum(1 for d in diffs for l in d["impl"] if " X:" in l)
 
     sch = sched_stage(ctx)
-    if sch["oracle_mismatch"]:
+    from checklib.props import C01 as _c01
+    fam = _c01.family_blocks(ctx, "C07")
+    fam_bad = [l for f in fam for l in f["mismatch_lines"]]
+    if fam_bad:
+        ctx.violation("beneficiary accounting differs from in-order revm in a block that destroys / re-creates accounts (the fee recipient among them)",
+                      dict(witness=fam_bad[0][:3000], replay="target/release/flatblock destroy %d %d <outdir> %s" % (ctx.seed, fam[0]["cases"], fam_bad[0].split()[0]), seed=ctx.seed), True)
+    elif sch["oracle_mismatch"]:
         c = sch["oracle_mismatch"][0]
         ctx.violation("beneficiary accounting differs from in-order revm in a scheduled block (a reader of the fee recipient or the final credit is wrong)",
                       dict(replay=sc.replay_cmd(c), case=c, detail=open(c["file"]).read()[:4000] if c.get("file") else "", seed=ctx.seed), True)
@@ -299,7 +305,9 @@ def run(ctx):
             "revm's journal (load_account_mut / incr_balance / finalize) and the commit layer's per-account rule are transcribed in Ben/Model.v, not verified; they are exercised against the real revm in the arith differential",
         ],
         theorems=proof["theorems"],
-        evaluations=len(dh["cases"]) + len(da["cases"]) + len(db["cases"]) + sch["cases"],
+        evaluations=len(dh["cases"]) + len(da["cases"]) + len(db["cases"]) + sch["cases"] + sum(f["cases"] for f in fam),
+        destroy_family_blocks=dict(cases=sum(f["cases"] for f in fam), mismatches=len(fam_bad),
+                                   rule="flatblock destroy: blocks with self-destruct / re-creation / EIP-161 deletion on all forks; the fee recipient is one of the victims in a quarter of them; free-threaded Scheduler vs in-order stock revm (results and bundle)"),
         scheduled_blocks=dict(cases=sch["cases"], oracle_mismatches=len(sch["oracle_mismatch"]), driver_failures=len(sch["driver_failure"]),
                               rule="blocks with coinbase probes and data-dependent gas run by the real Scheduler under driven schedules (random, sticky, PCT, straggler, slow database) vs in-order stock revm"),
         distinct_nontrivial=hnt + ant + db["nontrivial"],
